@@ -50,8 +50,19 @@ def key_encoder(keys):
     return lambda k: 'k:' + repr(k)
 
 
+FORMAT_ATTRS = ('atype', 'resid', 'resname', 'atomname', 'charge_group', 'charge', 'mass', 'atomid')
+
+
+def strip_raw(m):
+    """the abstract molecule without the `raw` fingerprints (what the TAB model of ItpWrite builds)"""
+    return dict(m, nodes=[{k: v for k, v in nd.items() if k != 'raw'} for nd in m['nodes']],
+                inter=[{k: v for k, v in x.items() if k != 'raw'} for x in m['inter']])
+
+
 def project(mol, moltype=None):
-    """Abstract molecule of a real Molecule: nodes in graph order, interactions in dictionary / list order."""
+    """Abstract molecule of a real Molecule: nodes in graph order, interactions in dictionary / list order.
+    `raw` = which of the attributes the format uses are PRESENT, with repr(value), and the complete meta of an
+    interaction: not read by Write / Canon, only compared before / after writing (ItpWrite!Repeatable)."""
     enc = key_encoder(mol.nodes)
     nodes = []
     for key in mol.nodes:
@@ -61,7 +72,8 @@ def project(mol, moltype=None):
                       'f': [str(a.get('atype', '<missing>')), str(a.get('resid', '<missing>')),
                             str(a.get('resname', '<missing>')), str(a.get('atomname', '<missing>')),
                             str(a.get('charge_group', '<missing>')),
-                            str(a['charge']) if 'charge' in a else '', str(a['mass']) if 'mass' in a else '']})
+                            str(a['charge']) if 'charge' in a else '', str(a['mass']) if 'mass' in a else ''],
+                      'raw': [[name, repr(a[name])] for name in FORMAT_ATTRS if name in a]})
     inter = []
     for type_, lst in mol.interactions.items():
         for it in lst:
@@ -72,7 +84,9 @@ def project(mol, moltype=None):
                 g = [{'kind': 'ifndef', 'name': str(it.meta['ifndef'])}]
             inter.append({'type': str(type_), 'at': [enc(k) for k in it.atoms],
                           'p': [str(p) for p in it.parameters],
-                          'g': g, 'grp': str(it.meta.get('group') or ''), 'com': str(it.meta.get('comment', ''))})
+                          'g': g, 'grp': str(it.meta.get('group') or ''), 'com': str(it.meta.get('comment', '')),
+                          'raw': sorted([str(k), repr(v)] for k, v in it.meta.items())
+                                 + [['parameters', repr([type(p).__name__ for p in it.parameters])]]})
     mt = moltype if moltype is not None else mol.meta.get('moltype')
     defs = [{'name': str(k), 'val': str(v).split()} for k, v in (mol.meta.get('define') or {}).items()]
     return {'nodes': nodes, 'inter': inter, 'moltype': '' if mt is None else str(mt), 'nrexcl': str(mol.nrexcl), 'defs': defs}
